@@ -726,6 +726,11 @@ struct WakeState
     int preSpin[kMaxW] = {0, 0, 0, 0};
     int entryUs[kMaxW] = {0, 0, 0, 0}; // scripted delay between "predicate evaluated" and "parked"
     bool sync = false;                  // main thread waits until every caller is about to enter its call
+    // transient placement: >= 2 callers parked on the same side, j < parked releasing operations, then
+    // close() at once - while the released callers have been notified but have not yet taken / put
+    bool transient = false;
+    int settleUs = 0;   // time given to the callers to really park before the first releasing operation
+    int closeSpin = 0;  // 0..~50 us between the last releasing operation and close()
   };
   std::vector<RoundPlan> plan;
   std::atomic<int> roundGo{0}; // round r (1-based) released when roundGo >= r
@@ -832,12 +837,23 @@ inline void bqWake(pbt::Src &src, pbt::Case &c, bool small)
     static const int kEntry[] = {0, 40, 150, 400, 1000, 1000, 2500};
     for (int i = 0; i < WakeState::kMaxW; ++i) rp.entryUs[i] = sched::kInterposed ? kEntry[(r[9] / (1 + i * 7)) % 7] : 0;
     rp.sync = (r[10] % 3) != 0;
+    if (rp.nW >= 2 && (r[10] / 3) % 3 == 0)
+    {
+      rp.transient = true;
+      rp.sync = true;
+      for (int i = 0; i < WakeState::kMaxW; ++i) rp.entryUs[i] = 0; // park promptly
+      rp.settleUs = 300 + static_cast<int>((r[5] * 3) % 900);
+      rp.closeSpin = (r[6] % 3 == 0) ? 0 : static_cast<int>((r[6] * 37) % 25000);
+      feeds = 1 + static_cast<int>(r[4] % (rp.nW - 1)); // 1 .. nW-1: at least one caller stays parked
+      if (feeds > cap) feeds = cap;                      // releasing operations never have to wait themselves
+    }
     st->plan.push_back(rp);
     ex.push_back(Extra{cap, feeds, static_cast<int>(r[5]), static_cast<int>(r[6])});
     st->queues.emplace_back(new BQ(static_cast<std::size_t>(cap)));
     d << " [" << (rp.producersWait ? "producers on full" : "consumers on empty") << " n=" << rp.nW << " cap=" << cap
       << " timedMask=" << rp.opTimedMask << " feeds=" << feeds << " d1=" << r[5] << " d2=" << r[6] << " parkDelay=" << rp.entryUs[0] << "/"
-      << rp.entryUs[1] << "/" << rp.entryUs[2] << "/" << rp.entryUs[3] << "us" << (rp.sync ? " sync" : "") << "]";
+      << rp.entryUs[1] << "/" << rp.entryUs[2] << "/" << rp.entryUs[3] << "us" << (rp.sync ? " sync" : "")
+      << (rp.transient ? " TRANSIENT settle=" + std::to_string(rp.settleUs) + "us closeSpin=" + std::to_string(rp.closeSpin) : std::string()) << "]";
   }
   c.describe(d.str());
 
@@ -858,7 +874,7 @@ inline void bqWake(pbt::Src &src, pbt::Case &c, bool small)
       sched::sleepUs(static_cast<std::uint32_t>((v * 11) % 300));
   };
   const int mainP = 7;
-  long parkedAtClose = 0, fedTotal = 0;
+  long parkedAtClose = 0, fedTotal = 0, transientCloses = 0;
   for (int r = 1; r <= static_cast<int>(rows.size()); ++r)
   {
     auto &rp = st->plan[static_cast<std::size_t>(r - 1)];
@@ -884,7 +900,10 @@ inline void bqWake(pbt::Src &src, pbt::Case &c, bool small)
                       if (st->w[i].doneRound.load(std::memory_order_acquire) < r && !st->w[i].inCall.load(std::memory_order_acquire)) return false;
                     return true;
                   });
-    mainDelay(e.d1);
+    if (rp.transient)
+      sched::sleepUs(static_cast<std::uint32_t>(rp.settleUs));
+    else
+      mainDelay(e.d1);
     auto returned = [&](bool wantOk)
     {
       int n = 0;
@@ -946,7 +965,13 @@ inline void bqWake(pbt::Src &src, pbt::Case &c, bool small)
       }
       ++fedTotal;
     }
-    if (e.feeds > 0)
+    if (rp.transient)
+    {
+      // no waiting: the released callers have been notified but (usually) not yet run
+      sched::spin(static_cast<std::uint32_t>(rp.closeSpin));
+      if (returned(true) < e.feeds) ++transientCloses;
+    }
+    else if (e.feeds > 0)
     {
       // j feeds must release j callers (each waits for exactly the fed resource)
       if (!waitBounded(kBoundSeconds, [&] { return returned(true) >= e.feeds; }))
@@ -968,7 +993,7 @@ inline void bqWake(pbt::Src &src, pbt::Case &c, bool small)
         }
       }
     }
-    mainDelay(e.d2);
+    if (!rp.transient) mainDelay(e.d2);
     // ---- close ---------------------------------------------------------------------------
     for (int i = 0; i < rp.nW; ++i)
       if (st->w[i].doneRound.load(std::memory_order_acquire) < r && st->w[i].inCall.load(std::memory_order_acquire)) ++parkedAtClose;
@@ -1063,6 +1088,7 @@ inline void bqWake(pbt::Src &src, pbt::Case &c, bool small)
   for (auto &t : th) t.join();
   if (parkedAtClose) c.label("close() with >=1 caller inside a blocking/timed call");
   if (fedTotal) c.label("callers released by an item / a free slot");
+  if (transientCloses) c.label("close() while a released caller had not yet taken/put (transient state)");
   c.label(oneIn ? "perturbed" : "unperturbed");
   if (parkedAtClose) c.nontrivial(pbt::hash64(c.description));
 }
